@@ -107,12 +107,12 @@ class Link(Harness):
     def must_reach_for(self, params):
         if params.get("cancel"):
             return ["cancelled", "all-delivered", "cancel-with-fault"]
-        mr = ["all-delivered", "host-retransmitted", "ncp-retransmitted"]
+        mr = ["all-delivered", "host-retransmitted"] + (["ncp-retransmitted"] if params.get("mn", 1) else []) + (["host-send-failed"] if params.get("F", 3) >= 5 else [])
         if any(tuple(s) != (0, 0) for s in params.get("starts", ((0, 0), (6, 7)))):
             mr.append("wrapped")
         return mr
 
-    def run(self, ctx, mh=2, mn=1, F=3, windows=(1, 2), starts=((0, 0), (6, 7)), faults=FAULTS, cancel=False, ncp_start=(0.0,)):
+    def run(self, ctx, mh=2, mn=1, F=3, windows=(1, 2), starts=((0, 0), (6, 7)), faults=FAULTS, cancel=False, ncp_start=(0.0,), dirs="hn"):
         ash = real_ash()
         W = windows[ctx.choice("window", len(windows))]
         a, b = starts[ctx.choice("start", len(starts))]
@@ -129,6 +129,8 @@ class Link(Harness):
             host.connection_made(tr)
             host._tx_seq, host._rx_seq = a, b
             line = Line(ctx, loop, F, faults, lambda: max(host._t_rx_ack, RefNcp.T_ACK))
+            if dirs != "hn" and not cancel:
+                line.only = lambda d, data: d in dirs
             ncp = RefNcp(loop, lambda data: line.send("n", data), window=W, tx=b, rx=a)
             line.sink["h"] = ncp.feed
             line.sink["n"] = host.data_received
@@ -240,13 +242,16 @@ def main(tier):
         c.run("checks.c01:LINK", {"mh": 2, "mn": 1, "F": 3, "windows": [1, 2], "starts": [[6, 7]]})
         c.run("checks.c01:LINK", {"mh": 1, "mn": 2, "F": 3, "windows": [2], "starts": [[0, 0]], "faults": ["deliver", "drop", "corrupt"]})
         c.run("checks.c01:LINK", {"mh": 3, "mn": 1, "F": 2, "windows": [1], "starts": [[7, 6]], "cancel": True})
-        c.out_of_bounds += ["fault sequences longer than 3 frames per direction (later frames are delivered; no random continuation)", "more than 3 host / 2 NCP payloads",
+        c.run("checks.c01:LINK", {"mh": 2, "mn": 0, "F": 6, "windows": [1], "starts": [[7, 0]], "faults": ["deliver", "drop", "corrupt"], "dirs": "h"})
+        c.out_of_bounds += ["fault sequences longer than 3 frames per direction, 6 in the single-direction run (later frames are delivered; no random continuation)", "more than 3 host / 2 NCP payloads",
                             "window 3 and other start numbers (thorough)", "NCP behaviours that are not specification-conforming"]
     else:
         c.run("checks.c01:LINK", {"mh": 2, "mn": 2, "F": 4, "windows": [1, 2, 3], "starts": [[0, 0], [6, 7]]})
         c.run("checks.c01:LINK", {"mh": 1, "mn": 3, "F": 4, "windows": [2, 3], "starts": [[5, 6]], "faults": ["deliver", "drop", "corrupt", "duplicate"]})
         c.run("checks.c01:LINK", {"mh": 3, "mn": 2, "F": 3, "windows": [1, 2], "starts": [[7, 6]], "cancel": True})
         c.run("checks.c01:LINK", {"mh": 2, "mn": 1, "F": 3, "windows": [2], "starts": [[3, 4]], "ncp_start": [0.0, 0.015, 1.62]})
+        c.run("checks.c01:LINK", {"mh": 2, "mn": 0, "F": 7, "windows": [1], "starts": [[7, 0]], "faults": ["deliver", "drop", "corrupt", "duplicate"], "dirs": "h"})
+        c.run("checks.c01:LINK", {"mh": 1, "mn": 1, "F": 6, "windows": [2], "starts": [[0, 7]], "faults": ["deliver", "drop", "corrupt"], "dirs": "n"})
         c.out_of_bounds += ["fault sequences longer than 4 frames per direction", "more than 3 host / 3 NCP payloads"]
     return c.finish()
 
